@@ -251,6 +251,11 @@ def run(rep: Report, prog: Program, tier: str) -> None:
             for ch in ast.iter_child_nodes(p_):
                 parents[id(ch)] = p_
         for n in walk_no_nested(fi.node):
+            # an allocation: RtpPacket(..., sequence_number=<counter>) or <packet>.sequence_number = <counter>
+            if isinstance(n, ast.Assign) and isinstance(n.targets[0], ast.Attribute) and n.targets[0].attr == "sequence_number" and isinstance(n.value, (ast.Name, ast.Attribute)):
+                n = ast.keyword(arg="sequence_number", value=n.value)
+                parents[id(n.value)] = parents.get(id(n.value)) or fi.node
+                parents[id(n)] = parents[id(n.value)]
             if not (isinstance(n, ast.keyword) and n.arg == "sequence_number"):
                 continue
             src = unparse(n.value)
@@ -290,6 +295,35 @@ def run(rep: Report, prog: Program, tier: str) -> None:
                                     f"number, and the receiver's SRTP replay protection drops all but the first (retransmissions are never recovered)", construct=f"{src} not advanced"))
     if n_alloc < 2:
         raise AnalysisError("sequence number allocation sites of the sender not found")
+
+    # ---------------- C11-HISTORY: every slot of the retransmission history holds its own packet object
+    # (the history stores references; a packet object that is re-used for the next packet overwrites what an earlier slot would retransmit)
+    rep.rule("C11-HISTORY", "the packet stored in the retransmission history is created in the same loop iteration that stores it", min_instances=1)
+    n_hist = 0
+    for fi in prog.cls(S).methods.values():
+        parents = {}
+        for p_ in ast.walk(fi.node):
+            for ch in ast.iter_child_nodes(p_):
+                parents[id(ch)] = p_
+        for st in walk_no_nested(fi.node):
+            if not (isinstance(st, ast.Assign) and isinstance(st.targets[0], ast.Subscript) and unparse(st.targets[0].value) == "self.__rtp_history" and isinstance(st.value, ast.Name)):
+                continue
+            n_hist += 1
+            var = st.value.id
+            loop = st
+            while id(loop) in parents and not isinstance(loop, (ast.For, ast.AsyncFor, ast.While)):
+                loop = parents[id(loop)]
+            scope = loop if isinstance(loop, (ast.For, ast.AsyncFor, ast.While)) else fi.node
+            made_here = [a for b in scope.body for a in ast.walk(b) if isinstance(a, ast.Assign) and unparse(a.targets[0]) == var and isinstance(a.value, ast.Call)]
+            what = f"{fi.qualname}: self.__rtp_history[...] = {var}"
+            if made_here or scope is fi.node:
+                rep.ok("C11-HISTORY", what, sample=f"{var} = {unparse(made_here[0].value.func) if made_here else '...'}(...) inside the same loop body")
+            else:
+                rep.fail(mk_finding(prog, PROP, "C11-HISTORY", fi, st, f"`{var}` is stored in the retransmission history inside a loop but created outside it: all the slots filled by this loop hold one object, "
+                                    "which ends up carrying the last sequence number and payload; a NACK for any earlier packet finds a packet with another number and is not answered",
+                                    construct=f"history stores a shared {var}"))
+    if n_hist < 1:
+        raise AnalysisError("C11-HISTORY: the store into the retransmission history was not found")
 
     # ---------------- C11-RTXPT: the sender retransmits with the RTX payload type that belongs to the codec it encodes with
     rep.rule("C11-RTXPT", "the RTX payload type chosen by RTCRtpSender.send is the one whose apt is the encoding codec's payload type", min_instances=5)
@@ -338,6 +372,7 @@ def run(rep: Report, prog: Program, tier: str) -> None:
                                 construct="rtx payload type of the encoding codec"))
 
     loop_rule(rep, prog)
+    nackflag_rule(rep, prog)
 
 
 def loop_rule(rep: Report, prog: Program) -> None:
@@ -479,3 +514,53 @@ def loop_rule(rep: Report, prog: Program) -> None:
 
 class _Problem(Exception):
     pass
+
+
+def nackflag_rule(rep: Report, prog: Program) -> None:
+    """C11-NACKFLAG: NackGenerator.add() tells the receiver when to send a NACK.  Black box over arrival sequences (objects built by __init__): the call returns True exactly
+    when the packet opened a gap (it is two or more ahead of the highest sequence number seen), whatever the generator is still tracking from earlier outages, and the
+    set of missing numbers is the gap numbers of the last 128 that have not arrived."""
+    from types import SimpleNamespace
+    from engine.index import Unknown
+    from engine.peval import Evaluator, Raised
+    from .objhook import make_hook
+    RULE = "C11-NACKFLAG"
+    rep.rule(RULE, "NackGenerator.add() reports every new gap (also right after an outage longer than the history) and tracks exactly the unrepaired losses of the window", min_instances=8)
+    ng = prog.cls("rtcrtpreceiver.NackGenerator")
+    add = prog.func("rtcrtpreceiver.NackGenerator.add")
+    oh = make_hook(prog)
+    ev0 = Evaluator(prog, prog.modules["rtcrtpreceiver"], None, {}, oh)
+    hist = prog.const(prog.modules["rtp"], "RTP_HISTORY_SIZE")
+    seqs = {"single loss, late repair": [0, 1, 2, 4, 3, 5, 6],
+            "outage longer than the history, then a single loss": [0, 201, 203, 204, 202],
+            "outage of exactly the history size + 2, then a single loss": [0, hist + 2, hist + 4],
+            "two gaps in a row": [0, 3, 7, 8],
+            "duplicates and an old packet": [0, 1, 1, 3, 0, 3, 4]}
+    for label, rel in seqs.items():
+        for start in (1000, 65400):
+            what = f"{label}, first sequence number {start}"
+            try:
+                g = oh.instantiate(ng, [], {}, ev0)
+                top = None
+                arrived = set()
+                problem = None
+                for k, r in enumerate(rel):
+                    seq = (start + r) % 65536
+                    got = oh.run_method(add, g, [SimpleNamespace(sequence_number=seq)], {})
+                    arrived.add(r)
+                    want = top is not None and r >= top + 2
+                    top = r if top is None else max(top, r)
+                    want_missing = {(start + x) % 65536 for x in range(max(rel[0], top - hist), top) if x not in arrived and x > rel[0]}
+                    if bool(got) != want and problem is None:
+                        problem = f"packet #{k} (sequence {seq}): add() returns {got!r}; it {'opened a gap, a NACK is due' if want else 'opened no gap'}"
+                    if set(g.missing) != want_missing and problem is None:
+                        extra, lack = sorted(set(g.missing) - want_missing)[:3], sorted(want_missing - set(g.missing))[:3]
+                        problem = f"after packet #{k} (sequence {seq}) the missing set has {len(g.missing)} entries; unexpected {extra}, lacking {lack}"
+                if problem:
+                    rep.fail(mk_finding(prog, PROP, RULE, add, add.node, f"[{what}] {problem}", construct="nack flag: " + label))
+                else:
+                    rep.ok(RULE, what, sample=f"{len(rel)} arrivals")
+            except Raised as ex:
+                rep.fail(mk_finding(prog, PROP, RULE, add, getattr(ex, "node", None), f"[{what}] add() raises {ex.name}", construct=f"nack flag raises {ex.name}"))
+            except Unknown as ex:
+                raise AnalysisError(f"{RULE} cannot evaluate [{what}]: {ex}")
